@@ -452,6 +452,42 @@ func main() {
 		die("const MAX_GROUP_BLOCK_TIME not found in param.go")
 	}
 	w("src/consensus/model/param.go: const MAX_GROUP_BLOCK_TIME", "maxGroupBlockTime", "Nat", fmt.Sprint(mgbt))
+	// economy constants behind common.GetRewardBlocks()
+	econGo := parse(fset, filepath.Join(repo, "src/common/constant_economy.go"))
+	eenv := map[string]int64{}
+	ci, okc := constInt(econGo, "castingInterval", eenv)
+	rt, okr := constInt(econGo, "rewardTime", eenv)
+	if !okc || !okr {
+		die("castingInterval / rewardTime not found in constant_economy.go")
+	}
+	w("src/common/constant_economy.go: const castingInterval (ms)", "castingInterval", "Nat", fmt.Sprint(ci))
+	w("src/common/constant_economy.go: const rewardTime (ms)", "rewardTime", "Nat", fmt.Sprint(rt))
+	// Proposal025Block of every network configuration in src/common/version.go
+	verGo := parse(fset, filepath.Join(repo, "src/common/version.go"))
+	var p025 []string
+	ast.Inspect(verGo, func(n ast.Node) bool {
+		vs, ok := n.(*ast.ValueSpec)
+		if !ok {
+			return true
+		}
+		for i, nm := range vs.Names {
+			if i >= len(vs.Values) || !strings.HasSuffix(nm.Name, "ChainConfig") {
+				continue
+			}
+			if cl, ok := vs.Values[i].(*ast.CompositeLit); ok {
+				for _, e := range cl.Elts {
+					if kv, ok := e.(*ast.KeyValueExpr); ok && selName(kv.Key) == "Proposal025Block" {
+						if l, ok := kv.Value.(*ast.BasicLit); ok {
+							p025 = append(p025, "("+leanStr(nm.Name)+", "+l.Value+")")
+						}
+					}
+				}
+			}
+		}
+		return true
+	})
+	sort.Strings(p025)
+	w("src/common/version.go: Proposal025Block per network configuration", "proposal025", "List (String × Nat)", "["+strings.Join(p025, ", ")+"]")
 	w("src/consensus/model/param.go: InitParam MaxQN", "maxQN", "Nat", fmt.Sprint(params["MaxQN"]))
 	w("src/consensus/model/param.go: InitParam PotentialProposal", "potentialProposal", "Nat", fmt.Sprint(params["PotentialProposal"]))
 	w("src/consensus/model/param.go: InitParam PotentialProposalMax", "potentialProposalMax", "Nat", fmt.Sprint(params["PotentialProposalMax"]))
@@ -497,6 +533,33 @@ func main() {
 	order(parse(fset, filepath.Join(repo, "src/consensus/logical/logical_util.go")), "CalDeltaByTime", "calDeltaCalls")
 	order(parse(fset, filepath.Join(repo, "src/consensus/base/hash.go")), "Data2CommonHash", "data2CommonHashCalls")
 	order(parse(fset, filepath.Join(repo, "src/consensus/logical/vrf_worker.go")), "genProve", "genProveCalls")
+
+	// argument lists of every validateProve call: which height the proposer / the verifier evaluate the rule at
+	{
+		var calls []string
+		for _, rel := range []string{"src/consensus/logical/vrf_with_stake.go", "src/consensus/logical/vrf_worker.go"} {
+			pth := filepath.Join(repo, rel)
+			f := parse(fset, pth)
+			src, _ := os.ReadFile(pth)
+			for _, d := range f.Decls {
+				fn, ok := d.(*ast.FuncDecl)
+				if !ok || fn.Body == nil {
+					continue
+				}
+				ast.Inspect(fn.Body, func(n ast.Node) bool {
+					if c, ok := n.(*ast.CallExpr); ok && selName(c.Fun) == "validateProve" {
+						var as []string
+						for _, a := range c.Args {
+							as = append(as, strings.Join(strings.Fields(string(src[fset.Position(a.Pos()).Offset:fset.Position(a.End()).Offset])), " "))
+						}
+						calls = append(calls, fn.Name.Name+"("+strings.Join(as, ", ")+")")
+					}
+					return true
+				})
+			}
+		}
+		fmt.Fprintf(&b, "\n/-- every call of validateProve with its argument expressions -/\ndef validateProveCallArgs : List String :=\n  %s\n", leanList(calls))
+	}
 
 	// vrf_worker.go: status constants, the two compare-and-swap transitions, the workingOn condition
 	{
